@@ -36,7 +36,7 @@ def relevant(pid, k):
     return any(k.startswith(p) for p in RELEVANT.get(pid, ("",)))
 
 
-def cluster_evidence(pid, tier, seed, res, model, new, known, wall):
+def cluster_evidence(pid, tier, seed, res, model, new, known, wall, foc=None):
     states = int(model.get("states", 0))
     transitions = int(model.get("transitions", 0))
     cov = {
@@ -64,6 +64,14 @@ def cluster_evidence(pid, tier, seed, res, model, new, known, wall):
         "cached_cluster_run": bool(res.get("cached")),
         "known_findings_hit": {k: len(v[1]) for k, v in known.items()},
     }
+    if foc:
+        cov["focused_runs"] = {"scenarios": foc["scenarios"], "traces": foc["traces"], "observed_events": foc["events"],
+                               "drift_events": foc.get("drift_events", 0), "panics": len(foc.get("panics", [])),
+                               "situations_exercised": {k: v for k, v in sorted(foc.get("kinds", {}).items()) if relevant(pid, k)},
+                               "wall_s": foc.get("wall_s"), "cached": bool(foc.get("cached"))}
+        cov["traces_recorded"] += foc["traces"]
+        cov["traces_validated_against_impl"] += foc["traces"]
+        cov["observed_events"] += foc["events"]
     ev = {
         "property_id": pid, "tier": tier, "seed": seed, "level": "model_checking",
         "coverage": cov,
